@@ -173,6 +173,60 @@ def run(rng, tier, model_ok):
             add("%s %s to %s" % (gens_dec(x), a, b), o)
             add("(%s %s to %s) to %s" % (gens_dec(x), a, b, a), o if False else (lambda reply: None if pipeline.is_error(reply) else {"why": "a cast between reciprocal dimensions was accepted"}))
             stats["reciprocal_casts"] = stats.get("reciprocal_casts", 0) + 2
+    # a looked-up fact is a quantity like any other: stored data reaches the conversion through the decoder, not through the unit
+    # parser; converting it (to base units, to another prefix, there and back) and adding to it preserve what it measures
+    import qcorr
+    fq = []
+    for c in qcorr.tables()["shipped"]:
+        ws_ = c["tokens"]
+        if 1 <= len(ws_) <= 4 and all(w_.isalpha() and w_.islower() and w_ != "to" for w_ in ws_) and c["unit"]:
+            fq.append(" ".join(ws_))
+    fq = sorted(set(fq))
+    rng.shuffle(fq)
+    fq = fq[: (40 if tier == "quick" else 400)] + [f for f in ("radius of earth", "size of the observable universe", "earth radius", "mass of earth") if f not in fq[:40]]
+    krep = vlib.run_impl(["K %s 1" % vlib.hx(f) for f in fq])
+    nfact = 0
+    for f, k in zip(fq, krep):
+        if not isinstance(k, list) or not k or not k[0].get("unit") or V.has_offset(k[0]["unit"]) or k[0].get("tokens") != f.split(" "):
+            continue
+        kn = [tuple(x) for x in k[0]["unit"]]
+        want_si = V.si(k[0]["value"][0], k[0]["value"][1], kn)
+        tgt = unitlib.expand_text(rng, V, kn)
+        if not tgt:
+            continue
+        tn = read_units(V, [tgt]).get(tgt)
+        if not tn or V.dims(tn) != V.dims(kn):
+            continue
+
+        def fo(reply, want_si=want_si, mult=Fraction(1), add_si=Fraction(0)):
+            v = pipeline.single_value(reply)
+            if v is None:
+                return {"why": "a conversion of a looked-up fact between commensurable units was refused"}
+            if V.si(v[0], v[1], v[2]) != want_si * mult + add_si:
+                return {"why": "the fact measures %s in SI units, after the operation %s (expected %s)" % (want_si, V.si(v[0], v[1], v[2]), want_si * mult + add_si)}
+            return None
+        add("%s to %s" % (f, tgt), fo)
+        add("%s to %s to %s" % (f, tgt, tgt), fo)
+        add("%s * 2 to %s" % (f, tgt), (lambda reply, fo=fo: fo(reply, mult=Fraction(2))))
+        add("%s + 1 %s" % (f, tgt), (lambda reply, fo=fo, tn=tn: fo(reply, add_si=V.scale(tn))))
+        add("1 %s + %s" % (tgt, f), (lambda reply, fo=fo, tn=tn: fo(reply, add_si=V.scale(tn))))
+        nfact += 1
+    stats["facts_converted"] = nfact
+    # a target unit whose spelling cancels to nothing (m/m, s/s): the known finding `cast-to-cancelling-unit` -- Compound::factor
+    # returns at once when either side has no names, so the quantity keeps its number and loses its unit and its factor
+    for q, want in (("1 hr/s to m/m", Fraction(3600)), ("1 m/in to s/s", Fraction(5000, 127)), ("2 km/m to 1/1", None)):
+        def co(reply, want=want, q=q):
+            v = pipeline.single_value(reply)
+            if want is None or pipeline.is_error(reply):
+                return None
+            if v is None or V.si(v[0], v[1], v[2]) != want:
+                return {"why": "a cast to a unit that cancels to nothing dropped the conversion factor: %s answers %s, the quantity is %s" % (q, v, want),
+                        "key": "cast-to-cancelling-unit"}
+            return None
+        add(q, co)
+    for q in ("5 m to s/s", "3 kg to m/m"):
+        add(q, (lambda reply, q=q: None if pipeline.is_error(reply) else
+                {"why": "a quantity with a dimension was cast to a unit that cancels to nothing and lost its unit: %s" % q, "key": "cast-to-cancelling-unit"}))
     # prefixes: exactly the power of ten
     for e, word, name in prefix_words:
         na, nb = parsed.get(word), parsed.get(name)
